@@ -2,19 +2,47 @@ import SkyllhModel.Proto
 import SkyllhModel.Model.Cache
 open Proto Cache
 
+/-- The scalar the model is executed with: an IEEE double identified with its **bit pattern**.
+Equality (`DecidableEq`, hence the `==` of grid keys and of the exact hit test) is equality of bit
+patterns — structural, lawful — so the executed instance is literally an instance of the theorems
+in Props/C06.lean (which assume `[DecidableEq F]` and nothing about arithmetic); `+0.0`/`-0.0` are
+different keys and a NaN equals itself, exactly like Python's `hash`/`np.array_equal`-on-bits would
+not, but the grids contain neither (checked by the harness).  Arithmetic and order are IEEE. -/
+structure BF where
+  bits : UInt64
+deriving DecidableEq
+
+namespace BF
+def v (a : BF) : Float := Float.ofBits a.bits
+def of (x : Float) : BF := ⟨x.toBits⟩
+instance : Add BF := ⟨fun a b => of (a.v + b.v)⟩
+instance : Sub BF := ⟨fun a b => of (a.v - b.v)⟩
+instance : Mul BF := ⟨fun a b => of (a.v * b.v)⟩
+instance : Div BF := ⟨fun a b => of (a.v / b.v)⟩
+instance : LT BF := ⟨fun a b => a.v < b.v⟩
+instance : LE BF := ⟨fun a b => a.v ≤ b.v⟩
+instance : DecidableLT BF := fun a b => inferInstanceAs (Decidable (a.v < b.v))
+instance : DecidableLE BF := fun a b => inferInstanceAs (Decidable (a.v ≤ b.v))
+instance : OfScientific BF := ⟨fun m s e => of (OfScientific.ofScientific m s e)⟩
+end BF
+
+def pBF (s : String) : BF := ⟨s.toNat!.toUInt64⟩
+def fBF (x : BF) : String := toString x.bits.toNat
+
 /-  one request = one history on one object graph (floats as IEEE bit patterns):
 
-      hist <variant> <cfg> <man> <bkg> <up> <lo> <dx> <d0> <s0> <ops>
+      hist <variant> <cfg> <man> <bkg> <up> <lo> <dx> <grid> <d0> <s0> <ops>
 
-    variant  3 chars 0/1: bumpAlways exactHit resetNsgrad       (read from the source by the harness)
+    variant  4 chars 0/1: bumpAlways exactHit resetNsgrad clearNsgOnEval   (probed on the real code by the harness)
     cfg      5 chars 0/1: srcFields preFields staticFields cachePd parabola
     man      d:s:k:g:v1,v2,…;…     signal PDF values of grid point g for the events of source k
     bkg      d:s:v1,v2,…;…         background PDF values
     up, lo   g:g';…                ParameterGrid neighbours          dx  grid spacing
+    grid     g1,g2,…               the grid points that have a PDF (others: KeyError)
     d0, s0   data set / source of the first initialize_trial
-    ops      ;-separated   I<d> | S<s> | E<x1,x2,…>|<key1,key2,…> | G
+    ops      ;-separated   I<d> | S<s> | E<ns>|<x1,x2,…>|<key1,key2,…> | G
     answer   ;-separated   U | O:<ratio blocks a,b/c,d>:<grad blocks>:<interpHit>:<pdMiss>:<bkgMiss>
-                             | G<d>:<s>:<x1,x2,…> | ERR
+                             | XERR (the evaluation raised) | G<d>:<s>:<ns>:<x1,x2,…> | ERR
              every O answer is followed by |P:<ratio blocks>:<grad blocks> = the stateless evaluator `evalPure`
 -/
 
@@ -22,8 +50,8 @@ def bits (s : String) : List Bool := s.toList.map (· == '1')
 
 def pVariant (s : String) : Variant :=
   match bits s with
-  | [a, b, c] => ⟨a, b, c⟩
-  | _ => ⟨false, false, false⟩
+  | [a, b, c, d] => ⟨a, b, c, d⟩
+  | _ => ⟨false, false, false, false⟩
 
 def pCfg (s : String) : Cfg :=
   match bits s with
@@ -33,63 +61,62 @@ def pCfg (s : String) : Cfg :=
 def entries (s : String) : List (List String) :=
   if s == "-" then [] else (s.splitOn ";").map (·.splitOn ":")
 
-def manTab (s : String) : List ((Nat × Nat × Nat × UInt64) × List Float) :=
+def manTab (s : String) : List ((Nat × Nat × Nat × BF) × List BF) :=
   (entries s).filterMap fun
-    | [d, sr, k, g, vs] => some ((pN d, pN sr, pN k, (pF g).toBits), pList pF vs)
+    | [d, sr, k, g, vs] => some ((pN d, pN sr, pN k, pBF g), pList pBF vs)
     | _ => none
 
-def bkgTab (s : String) : List ((Nat × Nat) × List Float) :=
+def bkgTab (s : String) : List ((Nat × Nat) × List BF) :=
   (entries s).filterMap fun
-    | [d, sr, vs] => some ((pN d, pN sr), pList pF vs)
+    | [d, sr, vs] => some ((pN d, pN sr), pList pBF vs)
     | _ => none
 
-def nbTab (s : String) : List (UInt64 × Float) :=
+def nbTab (s : String) : List (BF × BF) :=
   (entries s).filterMap fun
-    | [g, h] => some ((pF g).toBits, pF h)
+    | [g, h] => some (pBF g, pBF h)
     | _ => none
 
-def nan : Float := 0.0 / 0.0
+/-- a grid point that is in no table: outside the grid (the model then answers XERR before any lookup) -/
+def offGrid : BF := BF.of (0.0 / 0.0)
 
-def mkWorld (man bkg up lo dx : String) : World Nat Nat Float :=
+def mkWorld (man bkg up lo dx grid : String) : World Nat Nat BF :=
   let mt := manTab man
   let bt := bkgTab bkg
   let ut := nbTab up
   let lt := nbTab lo
-  { man := fun d s k g => (mt.lookup (d, s, k, g.toBits)).getD [],
+  let gs := pList pBF grid
+  { man := fun d s k g => (mt.lookup (d, s, k, g)).getD [],
     bkg := fun d s => (bt.lookup (d, s)).getD [],
-    up := fun g => (ut.lookup g.toBits).getD nan,
-    lo := fun g => (lt.lookup g.toBits).getD nan,
-    dx := pF dx }
+    up := fun g => (ut.lookup g).getD offGrid,
+    lo := fun g => (lt.lookup g).getD offGrid,
+    dx := pBF dx,
+    inGrid := fun g => gs.contains g }
 
-def pOp (s : String) : Option (Op Nat Nat Float) :=
+def pOp (s : String) : Option (Op Nat Nat BF) :=
   if s.startsWith "I" then some (.initTrial (pN (s.drop 1).toString))
   else if s.startsWith "S" then some (.changeSource (pN (s.drop 1).toString))
   else if s.startsWith "E" then
     match ((s.drop 1).toString).splitOn "|" with
-    | [xs, ks] => some (.evaluate ⟨pList pF xs, pList pF ks⟩)
+    | [ns, xs, ks] => some (.evaluate ⟨pBF ns, pList pBF xs, pList pBF ks⟩)
     | _ => none
   else if s == "G" then some .grad2
   else none
 
-def fBlocks (bs : List (List Float)) : String :=
-  if bs.isEmpty then "-" else String.intercalate "/" (bs.map (fListD fF))
+def fBlocks (bs : List (List BF)) : String :=
+  if bs.isEmpty then "-" else String.intercalate "/" (bs.map (fListD fBF))
 
-def fRes : Res Nat Nat Float → String
+def fRes : Res Nat Nat BF → String
   | .unit => "U"
   | .out o => s!"O:{fBlocks o.ratio}:{fBlocks o.grad}:{fB o.interpHit}:{o.pdMiss}:{fB o.bkgMiss}"
-  | .grad2Of d s q => s!"G{d}:{s}:{fListD fF q.x}"
+  | .evalError => "XERR"
+  | .grad2Of d s q => s!"G{d}:{s}:{fBF q.ns}:{fListD fBF q.x}"
   | .error => "ERR"
 
-/-- the specification value of every evaluate of the history (stateless evaluator on the data / source set by
-the last initTrial / changeSource before it) -/
-def pureTrace (W : World Nat Nat Float) (par : Bool) : Nat → Nat → List (Op Nat Nat Float) → List String
-  | _, _, [] => []
-  | _, s, .initTrial d :: ops => "" :: pureTrace W par d s ops
-  | d, _, .changeSource s :: ops => "" :: pureTrace W par d s ops
-  | d, s, .evaluate q :: ops =>
-    let r := evalPure W par d s q
-    s!"|P:{fBlocks r.1}:{fBlocks r.2}" :: pureTrace W par d s ops
-  | d, s, .grad2 :: ops => "" :: pureTrace W par d s ops
+/-- the specification trace `Cache.pureTrace` (theorem `c06_trace`: equal to the cached run under (a), (b)) -/
+def fPure : Option (Option (List (List BF) × List (List BF))) → String
+  | some (some r) => s!"|P:{fBlocks r.1}:{fBlocks r.2}"
+  | some none => "|P:XERR"
+  | none => ""
 
 /-  second request kind: the DataField cache of a TrialDataManager
       field <reset 0/1> <table d:s:p:v1,v2,…;…> <d0> <s0> <ops ;-separated  N<d> | R | S<s> | C<p>>
@@ -121,14 +148,14 @@ def fieldTrace (f : Nat → Nat → UInt64 → List Float) (reset : Bool) :
 
 def answer (line : String) : String :=
   match tokens line with
-  | ["hist", v, c, man, bkg, up, lo, dx, d0, s0, ops] =>
+  | ["hist", v, c, man, bkg, up, lo, dx, grid, d0, s0, ops] =>
     let v := pVariant v
     let cfg := pCfg c
-    let W := mkWorld man bkg up lo dx
+    let W := mkWorld man bkg up lo dx grid
     match (if ops == "-" then some [] else (ops.splitOn ";").mapM pOp) with
     | some ops =>
       let r := run W v (hitOf v cfg) cfg (fresh (pN d0) (pN s0)) ops
-      String.intercalate ";" (List.zipWith (· ++ ·) (r.2.map fRes) (pureTrace W cfg.parabola (pN d0) (pN s0) ops))
+      String.intercalate ";" (List.zipWith (· ++ ·) (r.2.map fRes) ((pureTrace W cfg.parabola (pN d0) (pN s0) ops).map fPure))
     | none => "bad-ops"
   | ["field", reset, tab, d0, s0, ops] =>
     let t := fTab tab
